@@ -271,17 +271,21 @@ def cmd_tests(argv):
     j = 3
     if '-j' in argv:
         j = int(argv[argv.index('-j') + 1])
-    scan = json.load(open(os.path.join(OUT, 'scan.json')))
-    todo = [x for x in scan if x['status'] == 'silent']
-    print('%d silent mutants to test' % len(todo), flush=True)
+    src = argv[argv.index('--from') + 1] if '--from' in argv else 'scan.json'
+    status = argv[argv.index('--status') + 1] if '--status' in argv else 'silent'
+    opsf = set(argv[argv.index('--ops') + 1].split(',')) if '--ops' in argv else None
+    scan = json.load(open(os.path.join(OUT, src)))
+    todo = [x for x in scan if x['status'] == status and (opsf is None or x['op'].split('=')[0] in opsf)]
+    outname = 'tests.json' if (src, status) == ('scan.json', 'silent') else 'tests-%s-%s.json' % (src.replace('.json', ''), status)
+    print('%d %s mutants to test' % (len(todo), status), flush=True)
     results = []
     with mp.Pool(j, initializer=_init_test_worker) as pool:
         for n, r in enumerate(pool.imap_unordered(test_one, todo, chunksize=1)):
             results.append(r)
             if (n + 1) % 10 == 0:
                 print(n + 1, flush=True)
-                json.dump(results, open(os.path.join(OUT, 'tests.json'), 'w'), indent=0)
-    json.dump(results, open(os.path.join(OUT, 'tests.json'), 'w'), indent=0)
+                json.dump(results, open(os.path.join(OUT, outname), 'w'), indent=0)
+    json.dump(results, open(os.path.join(OUT, outname), 'w'), indent=0)
     for d in os.listdir('/var/tmp'):
         if d.startswith('dsa-mutscan-'):
             shutil.rmtree(os.path.join('/var/tmp', d), ignore_errors=True)
